@@ -23,22 +23,8 @@ pub uninterp spec fn fone() -> f64;                      // 1.0
 spec fn theta_frac(t: u64) -> f64 { fdiv(u64_to_f64(t), u64_to_f64(MAX_THETA)) }
 
 // KX float leaves (each a closed fact about IEEE doubles, to be discharged by a Kani harness)
-// Harnesses that discharge them (run standalone with `kani l.rs`: 7/7 SUCCESSFUL, complete, 2.6 s) - to be moved to kani/leaves_float.rs:
-//   const MAX_THETA: u64 = i64::MAX as u64;
-//   #[kani::proof]
-//   fn leaf_theta_frac_ok() { let t: u64 = kani::any(); kani::assume(0 < t && t <= MAX_THETA); let f = t as f64 / MAX_THETA as f64; assert!(f > 0.0 && f <= 1.0); }
-//   #[kani::proof]
-//   fn leaf_theta_frac_one() { let f = MAX_THETA as f64 / MAX_THETA as f64; assert!(f.to_bits() == 1.0f64.to_bits()); }
-//   #[kani::proof]
-//   fn leaf_div_one() { let n: u64 = kani::any(); let x = n as f64; assert!((x / 1.0).to_bits() == x.to_bits()); }
-//   #[kani::proof]
-//   fn leaf_zero() { assert!((0u64 as f64).to_bits() == 0.0f64.to_bits()); }
-//   #[kani::proof]
-//   fn leaf_zero_div() { let t: f64 = kani::any(); kani::assume(t > 0.0 && t <= 1.0); assert!((0.0f64 / t).to_bits() == 0.0f64.to_bits()); }
-//   #[kani::proof]
-//   fn leaf_fle_refl() { let n: u64 = kani::any(); let x = n as f64; assert!(x <= x); }
-//   #[kani::proof]
-//   fn leaf_usize_as_f64() { let n: usize = kani::any(); assert!((n as f64).to_bits() == ((n as u64) as f64).to_bits()); }
+// Discharged by kani/leaves_theta_float.rs (appended to theta/hash_table.rs): leaf_theta_frac_ok, leaf_theta_frac_one, leaf_theta_div_one,
+// leaf_theta_zero, leaf_theta_zero_div, leaf_theta_fle_refl, leaf_theta_usize_as_f64 (shim vx_usize_as_f64) - 7/7 SUCCESSFUL, complete, < 1 s each.
 // (t as f64) / (2^63-1 as f64) lies in (0, 1] for 1 <= t <= 2^63-1
 #[verifier::external_body] proof fn leaf_theta_frac_ok(t: u64)
   requires 0 < t <= MAX_THETA ensures theta_ok(theta_frac(t)) {}
